@@ -38,12 +38,14 @@ def run(calling, called, own, required, require_called, identity, n_acceptors, n
     def on_id(event):
         if identity == "raise":
             raise RuntimeError("boom")
+        if isinstance(identity, str) and identity.startswith("raise-"):
+            raise getattr(__import__("builtins"), identity[6:])("boom")
         if identity == "neg":
             return False, None
         if isinstance(identity, tuple):
             return identity[0], identity[1]
         return True, None
-    if identity in ("raise", "neg", "pos") or isinstance(identity, tuple):
+    if identity in ("raise", "neg", "pos") or isinstance(identity, tuple) or (isinstance(identity, str) and identity.startswith("raise-")):
         handlers[evt.EVT_USER_ID] = (on_id, None)
     ae = types.SimpleNamespace(require_calling_aet=list(required), require_called_aet=require_called, maximum_associations=maximum)
     others = [types.SimpleNamespace(is_acceptor=True, is_requestor=False) for _ in range(n_acceptors)] + \
@@ -109,7 +111,8 @@ def main():
                               ("CALLER", ["caller"]), ("A B", ["A B "])):
         for called, own, require_called in (("ME", "ME", True), ("ME", "ME   ", True), ("NOTME", "ME", True), ("NOTME", "ME", False)):
             # tuples: (handler verdict, server response, user identity type, positive response requested)
-            for identity in (None, "none-bound", "pos", "neg", "raise", (False, "denied", 3, True), (False, 401, 4, True),
+            for identity in (None, "none-bound", "pos", "neg", "raise", "raise-TypeError", "raise-ValueError", "raise-KeyError", "raise-AttributeError",
+                             "raise-OSError", (False, "denied", 3, True), (False, 401, 4, True),
                              (False, b"no", 5, True), (True, b"ok", 3, True), (True, "not-bytes", 3, True), (False, "denied", 1, True),
                              (False, "denied", 3, False)):
                 for n_acc, n_req, mx in ((1, 0, 1), (2, 0, 1), (2, 3, 2), (3, 0, 2), (1, 5, 1)):
